@@ -115,6 +115,33 @@ where
     let pd = match case.get("ref_pd") { Some(v) if !v.is_null() => { rep.counters.insert("kinked_over_32_crossings".into(), 1); pd_from_json(v) } _ => pd };
     if pd.len() > case["ref_max"].as_u64().unwrap_or(REF_MAX_CROSSINGS as u64) as usize {
         rep.counters.insert("cross_run_only".into(), 1);
+        // beyond the reference: besides the comparison with every other run of the same input, the
+        // same computation is repeated on ONE simulated worker (no interleaving, nothing split by
+        // worker count) and has to give the same answer
+        if case["twin"] == true && ex.cfg.run.par.workers > 1 {
+            let c2 = case.clone();
+            let one = ex.exec(Some(yui_verif_rt::ParCfg { workers: 1, nested_workers: 1, ..ex.cfg.run.par.clone() }), rt::fs::Disk::default(), move || run_sut::<R>(&c2));
+            rep.counters.insert("one_worker_twins".into(), 1);
+            match one {
+                Ok((Ok(g1), big1)) => {
+                    let same_big = match (&big, &big1) {
+                        (Some((Ok(a1), Ok(a2))), Some((Ok(b1), Ok(b2)))) => a1 == b1 && a2 == b2,
+                        (None, None) => true,
+                        _ => false,
+                    };
+                    if g1 != g || !same_big {
+                        rep.violation = Some(Violation::new("differs-from-one-worker", format!("{} workers: {} ; one worker: {}", ex.cfg.run.par.workers, describe_graded(&g), describe_graded(&g1))));
+                    }
+                }
+                Ok((Err(e), _)) => rep.violation = Some(Violation::new("malformed-homology", format!("[1 worker] {e}"))),
+                Err(a) => {
+                    let v = abort_to_violation(&a);
+                    if !(matches!(R::NAME, "Z" | "Q") && is_machine_overflow(&v)) {
+                        rep.violation = Some(Violation::new(&v.class, format!("[1 worker] {}", v.message)));
+                    }
+                }
+            }
+        }
         return rep;
     }
     // a component that never passes under a crossing may be oriented either way by the library:
@@ -198,6 +225,7 @@ impl Check for C01 {
         let mut case = json!({ "name": name, "pd": pd_to_json(&pd), "ring": ring, "h": h, "t": t, "reduced": reduced, "ref_max": ref_max });
         if !ref_pd.is_null() { case["ref_pd"] = ref_pd; }
         if rng.chance(1, 6) { case["trunc"] = json!([rng.below(3), rng.below(3)]); }
+        if (big || giant) && rng.chance(1, 2) { case["twin"] = json!(true); }
         case
     }
     fn run_case(&self, case: &Value, ex: &mut Executor) -> RunReport {
